@@ -1446,11 +1446,6 @@ ROLLBACK = guard_set(Contract(
     loops={
         0: LoopSpec(inv=lambda c: [
             ('no-callback', c.gnew('ncalls') == c.gentry('ncalls')),
-            ('to-remove-were-made-by-this-build', ForAll([xs_], Implies(
-                c.v('dirs_to_remove')[xs_], made_by_this_build(c, xs_)))),
-            ('never-a-dir-of-the-previous-build', z3.BoolVal(True))]),
-        1: LoopSpec(inv=lambda c: [
-            ('no-callback', c.gnew('ncalls') == c.gentry('ncalls')),
             ('effects-appended', log_prefix(c.gentry('eff'), c.gnew('eff'))),
             ('to-remove-were-made-by-this-build', ForAll([xs_], Implies(
                 c.v('dirs_to_remove')[xs_], made_by_this_build(c, xs_)))),
@@ -1462,7 +1457,12 @@ ROLLBACK = guard_set(Contract(
             ('every-file-this-build-built-is-removed', ForAll([xs_], Implies(
                 And(c.loop['seen'][xs_], Not(reused_as_it_is(c, xs_))),
                 Or(c.gnew('rm_attempts')[xs_], c.gnew('fs_kind')[xs_] != K_FILE))), ['C02']),
-            ('removals-only', removals_only(c), ['C02', 'C03'])]),
+            ('removals-only', removals_only(c), ['C02', 'C03']),
+            # C02: every directory this build made is going to be removed -- also one that the
+            # previous build had recorded under the same name (it did not exist when this build
+            # began, and restore_all cannot put a file back where a directory stands)
+            ('everything-this-build-made-is-to-be-removed', ForAll([xs_], Implies(
+                made_by_this_build(c, xs_), c.v('dirs_to_remove')[xs_])), ['C02', 'C03'])]),
     },
 ), remove=rollback_remove_guard, rmdir=rollback_rmdir_guard, mkdir=rollback_mkdir_guard)
 
@@ -1489,8 +1489,17 @@ def rollback_restore_guard(eng, st, cargs):
     TS = SH['FileBackups._backups'].args[0].sort()
     k0, k1 = eng.gread(eng.entry_state, 'fs_kind'), eng.gread(st, 'fs_kind')
     orig = TS.t0(b[i])
+    from pyvc.engine import Ctx
+    c = Ctx(eng, eng.entry_state, st, eng.cur_args, entry=eng.entry_state)
+    rm = eng.gread(st, 'rm_attempts')
     return [('no-directory-put-in-the-place-of-a-backed-up-file', ForAll([i], Implies(
-        And(i >= 0, i < z3.Length(b), k1[orig] == K_DIR), k0[orig] == K_DIR)), ['C02', 'C03'])]
+        And(i >= 0, i < z3.Length(b), k1[orig] == K_DIR), k0[orig] == K_DIR)), ['C02', 'C03']),
+            # ... and a directory that THIS build made at such a position (the file was moved
+            # aside, then a directory was needed there) has had its removal attempted first, also
+            # when the previous build had recorded a directory of that name
+            ('directories-of-this-build-at-backed-up-positions-are-removed-first', ForAll(
+                [i], Implies(And(i >= 0, i < z3.Length(b), k1[orig] == K_DIR,
+                                 made_by_this_build(c, orig)), rm[orig])), ['C02', 'C03'])]
 
 
 ROLLBACK.call_guards = {'file_backups.FileBackups.restore_all': rollback_restore_guard}
@@ -1498,7 +1507,11 @@ _lp = LoopSpec(inv=lambda c: [('no-callback', c.gnew('ncalls') == c.gentry('ncal
                               ('effects-appended', log_prefix(c.gentry('eff'), c.gnew('eff')))])
 _lp_rm = LoopSpec(inv=lambda c: [('no-callback', c.gnew('ncalls') == c.gentry('ncalls')),
                                  ('effects-appended', log_prefix(c.gentry('eff'), c.gnew('eff'))),
-                                 ('removals-only', removals_only(c), ['C02', 'C03'])])
+                                 ('removals-only', removals_only(c), ['C02', 'C03']),
+                                 ('visited-were-attempted', ForAll([xs_], Implies(
+                                     c.loop['seen'][xs_], c.gnew('rm_attempts')[xs_]))),
+                                 ('attempts-only-grow', ForAll([xs_], Implies(
+                                     c.gold('rm_attempts')[xs_], c.gnew('rm_attempts')[xs_])))])
 ROLLBACK.inlined_loops = {'file_builder.FileBuilder._remove_empty_dirs': {0: _lp_rm},
                           'file_builder.FileBuilder._create_dirs': {0: _lp}}
 CONTRACTS.append(ROLLBACK)
